@@ -37,7 +37,7 @@ UNTRUSTED = ["X-Forwarded-For", "x-forwarded-proto", "X-Forwarded-Host", "Forwar
 COOKIE_NAMES = ["sid", "a", "b", "SID", "x-y", "tok"]
 COOKIE_PARTS = ["sid=abc", "a=\"q\"", "b= sp", "a=1", "a=2", "tok=x,y", "tok=a b", "bad name=1", "=nov", "noeq",
                 "sid=", "x-y=\"", "b=\"a\\b\"", "SID=UP", "sid=\"a b\"", "tok=e", " a = 3 ", "sid=a=b"]
-QUERIES = ["", "", "", "a=b", "q=1&p=2", "x=%2F&y", "a=b?c=d", "k=v%20w", "redirect=/x?y", "a"]
+QUERIES = ["", "", "", "a=b", "q=1&p=2", "x=%2F&y", "a=b?c=d", "k=v%20w", "redirect=/x?y", "a", "fields=name,price"]
 UP_HEADERS = ["X-C13-A", "X-C13-B", "X-C13-C", "x-c13-d", "X-C13-Long-Name"]
 UP_COOKIES = ["c13u-a", "c13u-b", "c13u-c"]
 # response configurations (`respond` of serve.decision and serve.proxy; Envoy uses the one of the decision service):
@@ -604,6 +604,39 @@ def gen_request(rng, rules, exprs, wellformed=True, raw=False):
     return req, dec
 
 
+# A trusted gateway delegating the decision to the HTTP decision service (`case.via`): the `trusted_proxies` list the
+# services are configured with (the harness connects from 127.0.0.1), and the request of the gateway's own that carries
+# the logical request in X-Forwarded-Method / -Proto / -Host / -Uri: its method (None: the client's), its transport,
+# its request target.
+VIA_PROXIES = [["127.0.0.1"], ["127.0.0.1"], ["10.1.2.3", "127.0.0.0/8"], ["0.0.0.0/0"]]
+VIA_METHODS = [None, None, "GET", "GET", "POST"]
+VIA_PATHS = ["/", "/decide", "/_auth/check", "/decisions/v1", "/a%2Fb"]
+VIA_P = 0.25
+
+
+def forwardable(req):
+    """mirror of Spec.forwardable (method and host are never empty here): the path is in origin form and the request
+    target contains no `#` — the domain on which the model describes url.Parse of the X-Forwarded-Uri value"""
+    return req["path"].startswith("/") and not req["path"].startswith("//") and "#" not in req["path"] + req["query"]
+
+
+def gen_via(rng, req):
+    via = {"proxies": list(rng.choice(VIA_PROXIES)), "method": rng.choice(VIA_METHODS),
+           "tls": rng.random() < 0.3, "path": rng.choice(VIA_PATHS)}
+    if rng.random() < 0.15:
+        via["path"] = req["path"]       # NGINX auth_request with the URI of the client's request
+    return via
+
+
+def delegated(case):
+    """mirror of forwardAuth / c13Delegated: the message the gateway sends to the decision service"""
+    req, via = case["req"], case["via"]
+    target = req["path"] + ("?" + req["query"] if req["query"] else "")
+    return dict(req, method=via["method"] or req["method"], tls=via["tls"], path=via["path"], query="",
+                headers=[["X-Forwarded-Method", req["method"]], ["X-Forwarded-Proto", "https" if req["tls"] else "http"],
+                         ["X-Forwarded-Host", req["host"]], ["X-Forwarded-Uri", target]] + req["headers"])
+
+
 def gen_case(rng, dup_p=0.12, wellformed=True, raw=False, sized_p=0.08):
     """wellformed: a logical request the theorems cover; raw (with wellformed): its path contains octets that may not
     stand in a path; not wellformed: outside the hypotheses (two Cookie lines, hop headers, a head larger than the
@@ -675,6 +708,12 @@ def gen_case(rng, dup_p=0.12, wellformed=True, raw=False, sized_p=0.08):
             pad_head(case, "X-Pad", rng.choice([1, 1, 2, 64, 5000]))
         elif rng.random() < 0.03:
             pad_head(case, "X-Pad", rng.choice([0, 0, -1, -2, -100]))
+    # a trusted gateway delegates the decision: the HTTP decision service learns the logical request from
+    # X-Forwarded-* headers (inside the hypotheses; the head of the gateway's message has to fit as well)
+    if wellformed and "pad" not in req and forwardable(req) and rng.random() < VIA_P:
+        case["via"] = gen_via(rng, req)
+        if head_bytes(delegated(case)) > header_budget(case.get("limits")):
+            del case["via"]
     return case
 
 
